@@ -40,9 +40,18 @@ type subject struct {
 	setSig   func(eth2p0.BLSSignature)
 	getSig   func() eth2p0.BLSSignature
 	mutate   func(field string) error
+	snap     func() (restore func())  // snapshot of everything mutate can change; restore puts it back
+	share    func(from *subject) bool // give this object the signed content of `from` (same kind); false: cannot
 	parsig   func(idx int) (core.ParSignedData, error)
 	vc       any
 	unsigned *eth2api.VersionedProposal
+	content  any // the part of the object that share copies
+}
+
+// snapAttData snapshots attestation data (incl. its checkpoints).
+func snapAttData(d *eth2p0.AttestationData) func() {
+	d0, s0, t0 := *d, *d.Source, *d.Target
+	return func() { *d = d0; *d.Source = s0; *d.Target = t0 }
 }
 
 var versions = map[string]eth2spec.DataVersion{"phase0": eth2spec.DataVersionPhase0, "altair": eth2spec.DataVersionAltair,
@@ -103,6 +112,10 @@ func (w *world) newSubject(kind, ver string, claimed *valKeys, vidx eth2p0.Valid
 			return nil
 		}
 		s.parsig = func(idx int) (core.ParSignedData, error) { return core.NewPartialSignedRandao(ep, sig, idx), nil }
+		s.snap = func() func() {
+			slot0, ep0 := slot, ep
+			return func() { slot, ep = slot0, ep0; s.vc = &eth2api.ProposalOpts{Slot: slot, RandaoReveal: sig} }
+		}
 		return s, nil
 	case "exit":
 		ex := &eth2p0.SignedVoluntaryExit{Message: &eth2p0.VoluntaryExit{Epoch: w.slotEpoch(), ValidatorIndex: vidx}}
@@ -122,6 +135,7 @@ func (w *world) newSubject(kind, ver string, claimed *valKeys, vidx eth2p0.Valid
 			return nil
 		}
 		s.parsig = func(idx int) (core.ParSignedData, error) { return core.NewPartialSignedVoluntaryExit(ex, idx), nil }
+		s.snap = func() func() { m0 := *ex.Message; return func() { *ex.Message = m0 } }
 		return s, nil
 	case "registration":
 		reg := &eth2api.VersionedSignedValidatorRegistration{Version: eth2spec.BuilderVersionV1, V1: testutil.RandomSignedValidatorRegistration(w.t)}
@@ -148,6 +162,7 @@ func (w *world) newSubject(kind, ver string, claimed *valKeys, vidx eth2p0.Valid
 		s.parsig = func(idx int) (core.ParSignedData, error) {
 			return core.NewPartialVersionedSignedValidatorRegistration(reg, idx)
 		}
+		s.snap = func() func() { m0 := *reg.V1.Message; return func() { *reg.V1.Message = m0 } }
 		return s, nil
 	case "bcselection":
 		sel := &eth2v1.BeaconCommitteeSelection{ValidatorIndex: vidx, Slot: w.lay.slot}
@@ -165,6 +180,7 @@ func (w *world) newSubject(kind, ver string, claimed *valKeys, vidx eth2p0.Valid
 		s.parsig = func(idx int) (core.ParSignedData, error) {
 			return core.NewPartialSignedBeaconCommitteeSelection(sel, idx), nil
 		}
+		s.snap = func() func() { slot0 := sel.Slot; return func() { sel.Slot = slot0 } }
 		return s, nil
 	case "aggregate", "aggregate_legacy":
 		return w.newAggregate(kind, ver, claimed, vidx, badInner, own)
@@ -182,6 +198,15 @@ func (w *world) newSubject(kind, ver string, claimed *valKeys, vidx eth2p0.Valid
 			return nil
 		}
 		s.parsig = func(idx int) (core.ParSignedData, error) { return core.NewPartialSignedSyncMessage(m, idx), nil }
+		s.snap = func() func() { r0 := m.BeaconBlockRoot; return func() { m.BeaconBlockRoot = r0 } }
+		s.content = m
+		s.share = func(from *subject) bool {
+			o, ok := from.content.(*altair.SyncCommitteeMessage)
+			if ok {
+				m.Slot, m.BeaconBlockRoot = o.Slot, o.BeaconBlockRoot
+			}
+			return ok
+		}
 		return s, nil
 	case "scselection":
 		sel := &eth2v1.SyncCommitteeSelection{ValidatorIndex: vidx, Slot: w.lay.slot, SubcommitteeIndex: subcommittee}
@@ -204,6 +229,10 @@ func (w *world) newSubject(kind, ver string, claimed *valKeys, vidx eth2p0.Valid
 		}
 		s.parsig = func(idx int) (core.ParSignedData, error) {
 			return core.NewPartialSignedSyncCommitteeSelection(sel, idx), nil
+		}
+		s.snap = func() func() {
+			slot0, sc0 := sel.Slot, sel.SubcommitteeIndex
+			return func() { sel.Slot, sel.SubcommitteeIndex = slot0, sc0 }
 		}
 		return s, nil
 	case "contribution":
@@ -242,6 +271,10 @@ func (w *world) newSubject(kind, ver string, claimed *valKeys, vidx eth2p0.Valid
 		}
 		s.parsig = func(idx int) (core.ParSignedData, error) {
 			return core.NewPartialSignedSyncContributionAndProof(con, idx), nil
+		}
+		s.snap = func() func() {
+			m0, c0 := *con.Message, *con.Message.Contribution
+			return func() { *con.Message = m0; *con.Message.Contribution = c0 }
 		}
 		return s, nil
 	}
@@ -316,6 +349,16 @@ func (w *world) newAttestation(ver string, claimed *valKeys, vidx eth2p0.Validat
 		return nil
 	}
 	s.parsig = func(idx int) (core.ParSignedData, error) { return core.NewPartialVersionedAttestation(att, idx) }
+	s.snap = func() func() { return snapAttData(data) }
+	s.content = data
+	s.share = func(from *subject) bool {
+		o, ok := from.content.(*eth2p0.AttestationData)
+		if ok {
+			data.Slot, data.Index, data.BeaconBlockRoot = o.Slot, o.Index, o.BeaconBlockRoot
+			*data.Source, *data.Target = *o.Source, *o.Target
+		}
+		return ok
+	}
 	return s, nil
 }
 
@@ -386,6 +429,10 @@ func (w *world) newAggregate(kind, ver string, claimed *valKeys, vidx eth2p0.Val
 			return unknownField(kind, f)
 		}
 		return nil
+	}
+	s.snap = func() func() {
+		rd, ai0, sp0 := snapAttData(data), *aggIdx, *selp
+		return func() { rd(); *aggIdx, *selp = ai0, sp0 }
 	}
 	return s, nil
 }
@@ -529,12 +576,25 @@ func (w *world) newSignedProposal(kind, ver string, vidx eth2p0.ValidatorIndex) 
 		}
 		return nil
 	}
+	s.snap = func() func() {
+		blk := blockOf(p)
+		slot0, pi0 := blk.FieldByName("Slot").Uint(), blk.FieldByName("ProposerIndex").Uint()
+		pr0, sr0 := blk.FieldByName("ParentRoot").Index(0).Uint(), blk.FieldByName("StateRoot").Index(0).Uint()
+		g0 := blk.FieldByName("Body").Elem().FieldByName("Graffiti").Index(0).Uint()
+		return func() {
+			blk.FieldByName("Slot").SetUint(slot0)
+			blk.FieldByName("ProposerIndex").SetUint(pi0)
+			blk.FieldByName("ParentRoot").Index(0).SetUint(pr0)
+			blk.FieldByName("StateRoot").Index(0).SetUint(sr0)
+			blk.FieldByName("Body").Elem().FieldByName("Graffiti").Index(0).SetUint(g0)
+		}
+	}
 	return s, nil
 }
 
 // submitVC calls the endpoint of the node's validator API that takes this kind of object.
 func (w *world) submitVC(c acase, entries []entry) (herr, err error) {
-	vapi := w.vapis[c.node]
+	vapi := w.vapi(c.node)
 	ctx := w.ctx
 	switch c.kind {
 	case "attestation":
@@ -553,7 +613,11 @@ func (w *world) submitVC(c acase, entries []entry) (herr, err error) {
 	case "exit":
 		return vapi.SubmitVoluntaryExit(ctx, entries[0].s.vc.(*eth2p0.SignedVoluntaryExit)), nil
 	case "registration":
-		return vapi.SubmitValidatorRegistrations(ctx, []*eth2api.VersionedSignedValidatorRegistration{entries[0].s.vc.(*eth2api.VersionedSignedValidatorRegistration)}), nil
+		var l []*eth2api.VersionedSignedValidatorRegistration
+		for _, e := range entries {
+			l = append(l, e.s.vc.(*eth2api.VersionedSignedValidatorRegistration))
+		}
+		return vapi.SubmitValidatorRegistrations(ctx, l), nil
 	case "bcselection":
 		var l []*eth2v1.BeaconCommitteeSelection
 		for _, e := range entries {
